@@ -7,5 +7,5 @@ for d in seeded/*/; do id=$(basename $d); prop=${id%%-*}; extra=""; [ "$prop" = 
   python3 - <<P
 import json; p='/tmp/seedsrc-$id/meta.json'; m=json.load(open(p)); m.pop('verified_here',None); json.dump(m,open(p,'w'),indent=1)
 P
-  tools/seed_eval.py /tmp/seedsrc-$id $prop $id --props $props $extra 2>&1 | cut -c1-220; rm -rf /tmp/seedsrc-$id
+  tools/seed_eval.py /tmp/seedsrc-$id $prop $id --props $props $extra --seeds ${SEEDS:-1} 2>&1 | cut -c1-220; rm -rf /tmp/seedsrc-$id
 done
